@@ -15,8 +15,8 @@ CLAIMS = {
          'produced by decode; ADR, MOVT and the decode of operands (C06/C07) are not in these theorems.'),
  'C02': ('seven representative classes (LDR immediate ARM/Thumb, LDR register ARM, LDRB immediate, LDRSH immediate, STR immediate, STRB register) proved equal to the architecture pseudocode with MemU instantiated by the emulator (C13/C14): address for offset/pre/post-indexed forms modulo 2^32, width, destination value (incl. legacy rotation, sign extension), base write-back only after a successful access, loads to the PC through LoadWritePC; memory hypotheses discharged on flat maps.',
          'Partial: 24 further classes (byte/halfword/signed/register/Thumb forms, the unprivileged LDRT/STRT family, UNKNOWN stores) are compared three-way against the same parametric specification without theorems; doubleword, exclusive and literal forms are covered by the regenerated model and the whole-step correspondence only; operand extraction of the encodings is checked under C06/C07.'),
- 'C03': ('LDM and STM (increment after) proved equal to the architectural loops by induction over the register list, for every register mask, base, W bit and state: lowest register at the lowest address, consecutive words modulo 2^32, PC last, base write-back by 4*BitCount(registers) only after all accesses succeeded, UNKNOWN stored for a written-back base that is not lowest; the invariant they need is shown to hold on flat maps.',
-         'Partial: the rest of the family (DA/DB/IB, Thumb LDM, PUSH/POP, user-register and exception-return forms, SRS, RFE) has executable specifications (Spec/BlockFamily.v) compared three-way incl. transfers that abort part-way under the MPU, without theorems; the PUSH;POP round trip is not stated separately.'),
+ 'C03': ('LDM/STM in all four addressing modes (IA, DA, DB, IB; ARM and Thumb LDM), PUSH and POP proved equal to the architectural loops by induction over the register list, for every register mask, base, W bit and state: start address and written-back base per mode, lowest register at the lowest address, consecutive words modulo 2^32, PC last, write-back only after all accesses succeeded, UNKNOWN stored for a written-back base that is not lowest (the code\'s lowest-set-bit helper proved equal to the specification\'s on all 65535 non-empty lists); the invariant they need is shown to hold on flat maps.',
+         'Partial: the privileged members (user-register and exception-return LDM/STM, SRS, RFE) and the single-register PUSH/POP encodings that use MemU have executable specifications (Spec/BlockFamily.v) compared three-way incl. transfers that abort part-way under the MPU, without theorems; the PUSH;POP round trip is not stated separately.'),
  'C04': ('execute() of B, BL/BLX (immediate), BLX (register), BX, CBZ/CBNZ and the four PC-write primitives proved equal to the architectural operations for every state, offset, register and PC (incl. wrap at 2^32); the offset assembled by every branch encoding proved to be the sign-extended field for every instruction word; PC read value and sequential advance; alignment and link-value consequences.',
          'Partial: TBB/TBH has an executable specification compared by correspondence (no theorem); loads/ALU writes to PC belong to C01-C03; the whole-step statement "non-branch instructions advance the PC by their length" is searched (C05 step search), not proved. Known finding: CBZ offset scaled by 4 (pinned by the test-suite).'),
  'C05': ('CurrentCond and the 16x16 ConditionPassed table proved for every machine state; every conditional opcode class (266 of 273, enumerated from the regenerated dispatcher) proved a no-op when its condition fails.',
@@ -29,8 +29,8 @@ CLAIMS = {
          'by exhaustive evaluation inside Coq (bound stated).',
          'Partial: per-step advance inside execute_instruction, flag-setting of 16-bit encodings in IT blocks and the '
          'exception-entry/return handling of IT bits are not yet theorems.'),
- 'C09': ('representative classes proved bit-exact for every operand value and state: MUL, QADD, UBFX, CLZ, SEL; BFI proved to do exactly what the code does and shown not to be the architectural BFI (recorded finding). The helper arithmetic they share (SignedSatQ, AddWithCarry, bit fields, sign extension) is C17.',
-         'Partial: the other 87 classes (long/halfword/dual/most-significant multiplies, divide, all 36 parallel add/subtract forms, saturations, extends, pack, reversals, bit fields) have executable specifications (Spec/Arith2.v) compared three-way on lane-boundary operands, without theorems.'),
+ 'C09': ('every class of the family (92 abstract opcode classes) proved bit-exact for every operand value and state against Spec/Arith.v / Spec/Arith2.v: MUL/MLA/MLS, the long multiplies (N/Z from the 64-bit result), halfword, word-by-halfword, dual and most-significant-word multiplies (Q on overflow), SDIV/UDIV, QADD/QSUB/QDADD/QDSUB and SSAT/USAT/SSAT16/USAT16 (saturation and the sticky Q flag), all 36 parallel add/subtract forms (lanes and GE flags), USAD8/USADA8, the twelve extend(-and-add) forms, PKH, REV/REV16/REVSH, RBIT (32-step loop by invariant), UBFX/SBFX/BFC, CLZ, SEL; BFI proved to do exactly what the code does and shown not to be the architectural BFI (recorded finding). The helper arithmetic they share (SignedSatQ, AddWithCarry, bit fields, sign extension) is C17.',
+         'Partial: SDIV/UDIV are stated for configurations without the ARMv7-R divide-by-zero trap; the specifications in Spec/Arith2.v are hand-written from A8.8 and additionally compared three-way on lane-boundary operands; int(a / b) is modelled as truncating division (DESIGN 1.2).'),
  'C10': ('the bank table (LookUpRName = architectural banks) for every configuration/register/mode, aliasing iff same architectural register, read-after-write, histories of writes by induction, current-mode access, PC read value, SPSR banking.',
          'Partial: the 32-bit range invariant over instruction execution is searched (whole steps of members of 600 encoding classes from overflow-corner states), not proved.'),
  'C11': ('each of TakeReset, TakeUndefInstr, TakeSVC, TakeSMC, TakeHypTrap, TakeDataAbort, TakePhysicalIRQ, TakePhysicalFIQ '
